@@ -288,14 +288,17 @@ class Fitter:
             slice.content.size - slice.open_end
         )
 
+        last_placed = False
         while taken < fragment.child_count:
             next_ = fragment.child(taken)
             matches = match.match_type(next_.type)
             if not matches:
                 break
             taken += 1
+            last_placed = False
             if taken > 1 or open_start == 0 or next_.content.size:
                 match = matches
+                last_placed = True
                 add.append(
                     close_node_start(
                         next_.mark(type_.allowed_marks(next_.marks)),
@@ -324,7 +327,9 @@ class Fitter:
         ):
             self.close_frontier_node()
 
-        cur = fragment
+        # Walk the nodes as they were placed: a node that is open on both sides may
+        # have had filler put before its content, without which it does not match
+        cur = Fragment.from_(add[-1]) if to_end and last_placed else fragment
         for _ in range(open_end_count):
             node = cur.last_child
             assert node is not None
